@@ -48,25 +48,19 @@ theorem case_callc {S : Sem ν} {P : Prog ν} {T : Table ν} {G : List (List Nam
   have hn65 : args.length < 65536 := hfit.1.1
   -- the two kinds of callee
   have hnormal : ∀ (vs : List (Value ν)) (name : Name) (i : Nat) (c : Closure ν), vs.length = args.length →
-      lastIdx (fun c : Closure ν => c.decl.name == name) T.funs = some i → T.funs[i]? = some c →
+      T.funs[i]? = some c →
       (∀ v, applyClosure (eval S T n) c vs ρ.globals ρ.last = .ok v →
-        Runs S P (m.at f fs (f.ip + f1.length + f2.length) (m.stack ++ vs ++ [.fnref false name]))
+        Runs S P (m.at f fs (f.ip + f1.length + f2.length) (m.stack ++ vs ++ [.fnref false name (i + 1)]))
           (m.at f fs (f.ip + (f1 ++ (f2 ++ encode .callCallable [args.length, a])).length) (m.stack ++ [v]))) ∧
       (∀ err, applyClosure (eval S T n) c vs ρ.globals ρ.last = .err err →
-        Fails S P (m.at f fs (f.ip + f1.length + f2.length) (m.stack ++ vs ++ [.fnref false name])) err) := by
-    intro vs name i c hvl hi hc
-    have hchunk : lastIdx (fun ch : Chunk => ch.name == name) P.chunks = some (i + 1) := by
-      have h0 : lastIdx (fun nm => nm == name) (P.chunks.map Chunk.name) = some (i + 1) := by
-        rw [hP.names]
-        apply lastIdx_cons_some
-        rw [lastIdx_map]; exact hi
-      rw [lastIdx_map] at h0; exact h0
-    have hstep := step_callCallable_normal (S := S) (p2 vs (.fnref false name)) hn65 ha65
-      (s := m.stack ++ vs) (name := name) rfl hchunk (by simp; omega)
+        Fails S P (m.at f fs (f.ip + f1.length + f2.length) (m.stack ++ vs ++ [.fnref false name (i + 1)])) err) := by
+    intro vs name i c hvl hc
+    have hstep := step_callCallable_normal (S := S) (p2 vs (.fnref false name (i + 1))) hn65 ha65
+      (s := m.stack ++ vs) (name := name) (idx := i + 1) rfl (by simp; omega)
     have hfp : (m.stack ++ vs).length - args.length = m.stack.length := by simp; omega
     rw [hfp] at hstep
     have ap := apply_ok hP ih hc vs ρ.globals ρ.last
-      { (m.at f fs (f.ip + f1.length + f2.length) (m.stack ++ vs ++ [Value.fnref false name])) with
+      { (m.at f fs (f.ip + f1.length + f2.length) (m.stack ++ vs ++ [Value.fnref false name (i + 1)])) with
           stack := m.stack ++ vs,
           frames := { fn := i + 1, ip := 0, fp := m.stack.length } ::
             { { f with ip := f.ip + f1.length + f2.length } with ip := f.ip + f1.length + f2.length + 5 } :: fs }
@@ -89,26 +83,26 @@ theorem case_callc {S : Sem ν} {P : Prog ν} {T : Table ν} {G : List (List Nam
     have r12 : Runs S P m (m.at f fs (f.ip + f1.length + f2.length) (m.stack ++ vs ++ [cv])) := by
       simpa using r1.trans r2
     cases cv with
-    | fnref foreign name =>
+    | fnref foreign name idx =>
       cases foreign with
       | false =>
         simp only at hv
-        cases hi : lastIdx (fun c : Closure ν => c.decl.name == name) T.funs with
-        | none => simp [hi] at hv
-        | some i =>
-          simp only [hi] at hv
+        cases idx with
+        | zero => simp at hv
+        | succ i =>
+          simp only at hv
           cases hc : T.funs[i]? with
           | none => simp [hc] at hv
           | some c =>
             simp only [hc] at hv
-            exact r12.trans ((hnormal vs name i c (evalList_length hvs) hi hc).1 v hv)
+            exact r12.trans ((hnormal vs name i c (evalList_length hvs) hc).1 v hv)
       | true =>
         simp only at hv
         cases hmem : T.ffiAll.contains name with
         | false => rw [hmem] at hv; simp at hv
         | true =>
           simp only [hmem, if_true] at hv
-          have r3 := Runs.step (step_callCallable_foreign_ok (S := S) (p2 vs (.fnref true name)) hn65 ha65
+          have r3 := Runs.step (step_callCallable_foreign_ok (S := S) (p2 vs (.fnref true name idx)) hn65 ha65
             (s := m.stack) (vs := vs) (name := name) rfl (evalList_length hvs) (hmemP name hmem) hv)
           have := r12.trans r3
           simpa [encode_length, Nat.add_assoc] using this
@@ -124,26 +118,26 @@ theorem case_callc {S : Sem ν} {P : Prog ν} {T : Table ν} {G : List (List Nam
         have r12 : Runs S P m (m.at f fs (f.ip + f1.length + f2.length) (m.stack ++ vs ++ [cv])) := by
           simpa using r1.trans r2
         cases cv with
-        | fnref foreign name =>
+        | fnref foreign name idx =>
           cases foreign with
           | false =>
             simp only at he
-            cases hi : lastIdx (fun c : Closure ν => c.decl.name == name) T.funs with
-            | none => simp [hi] at he
-            | some i =>
-              simp only [hi] at he
+            cases idx with
+            | zero => simp at he
+            | succ i =>
+              simp only at he
               cases hc : T.funs[i]? with
               | none => simp [hc] at he
               | some c =>
                 simp only [hc] at he
-                exact r12.fails ((hnormal vs name i c (evalList_length hvs) hi hc).2 err he)
+                exact r12.fails ((hnormal vs name i c (evalList_length hvs) hc).2 err he)
           | true =>
             simp only at he
             cases hmem : T.ffiAll.contains name with
             | false => rw [hmem] at he; simp at he
             | true =>
               simp only [hmem, if_true] at he
-              exact r12.fails (Fails.step (step_callCallable_foreign_err (S := S) (p2 vs (.fnref true name)) hn65 ha65
+              exact r12.fails (Fails.step (step_callCallable_foreign_err (S := S) (p2 vs (.fnref true name idx)) hn65 ha65
                 (s := m.stack) (vs := vs) (name := name) rfl (evalList_length hvs) (hmemP name hmem) he))
         | _ => simp at he
 
